@@ -783,8 +783,15 @@ func (s String) Split(args Tuple, kwargs StringDict) (Object, error) {
 		max = pymax.(Int)
 		vs  []string
 	)
+	if max < 0 {
+		// no limit (strings.SplitN: -1, fieldsN: -1)
+		max = -2
+	}
 	switch v := pyval.(type) {
 	case String:
+		if len(v) == 0 {
+			return nil, ExceptionNewf(ValueError, "empty separator")
+		}
 		vs = strings.SplitN(string(s), string(v), int(max)+1)
 	case NoneType:
 		vs = fieldsN(string(s), int(max))
